@@ -1,4 +1,4 @@
-"""C56 - crystal slip-system descriptions are crystallographically valid (SlipSystems.tla, cubic lattices)."""
+"""C56 - crystal slip-system descriptions are crystallographically valid (SlipSystems.tla: cubic lattices, SlipSystemsHCP.tla: hexagonal)."""
 from vflib.lattice import lattice_check
 
 
@@ -8,7 +8,10 @@ def run(ctx):
                          rule="every orthogonal (Burgers vector, plane) pair with Miller indices in -2..2 (-3..3 in thorough), one "
                               "representative per sign / magnitude-ordering class, for the Cubic, BCC and FCC structures (non primitive "
                               "indices included); expected family = orbit under the 48 signed permutations modulo signs, computed by TLC; "
-                              "non-trivial = not an axis-aligned pair",
+                              "non-trivial = not an axis-aligned pair. HCP: every orthogonal (four-index dot product) pair of primitive Miller-Bravais "
+                              "vectors with indices in -2..2 (-3..3), one representative per sign class; expected family = orbit under the 24 "
+                              "operations of 6/mmm modulo signs",
                          nontrivial=lambda c: sum(1 for x in c["b"] + c["n"] if x) > 2,
-                         assumptions=["HCP (Miller-Bravais, 4 indices) is not covered",
+                         assumptions=["HCP: the floating normals / directions are not compared with the integer indices (that needs the c/a ratio); unit length, "
+                                      "orthogonality, orientation tensors and Schmid factors (26 Miller-Bravais loading directions) are",
                                       "floating-point obligations (unit vectors, tensors, Schmid range) are flags computed by the harness at 1e-12"])
